@@ -283,6 +283,74 @@ fn probe_default(args: &Args) {
                 Obj::new("emulate").int("sig", sig as i64).str("ctx", "other_pending").int("other", other as i64).str("status", &st.text).raw("r", &kv_json(&st.report)).done()
             );
         }
+        // stop signals in a process whose parent has died (re-parented to init) while its process
+        // group is NOT orphaned (another member still has a parent outside the group): the kernel
+        // stops it, so must the emulation
+        if [libc::SIGTSTP, libc::SIGTTIN, libc::SIGTTOU].contains(&sig) {
+            for native in [true, false] {
+                let st = fork_run(6000, || {
+                    // A = this process (leader of its own group, parent outside the group)
+                    let mut fds = [0 as c_int; 2];
+                    unsafe { libc::pipe(fds.as_mut_ptr()) };
+                    let m = unsafe { libc::fork() };
+                    if m == 0 {
+                        // M: fork B, tell A its pid, exit at once
+                        let b = unsafe { libc::fork() };
+                        if b == 0 {
+                            // B: wait until re-parented, then act
+                            for _ in 0..200 {
+                                if unsafe { libc::getppid() } == 1 {
+                                    break;
+                                }
+                                std::thread::sleep(std::time::Duration::from_millis(5));
+                            }
+                            if native {
+                                set_handler(sig, libc::SIG_DFL, 0);
+                                unsafe { libc::raise(sig) };
+                            } else {
+                                let _ = signal_hook::low_level::emulate_default_handler(sig);
+                            }
+                            std::thread::sleep(std::time::Duration::from_millis(1500));
+                            unsafe { libc::_exit(0) };
+                        }
+                        let bytes = (b as i32).to_ne_bytes();
+                        unsafe { libc::write(fds[1], bytes.as_ptr() as *const libc::c_void, 4) };
+                        unsafe { libc::_exit(0) };
+                    }
+                    let mut buf = [0u8; 4];
+                    unsafe { libc::read(fds[0], buf.as_mut_ptr() as *mut libc::c_void, 4) };
+                    let b = i32::from_ne_bytes(buf);
+                    let mut stm: c_int = 0;
+                    unsafe { libc::waitpid(m, &mut stm, 0) };
+                    // watch B's state
+                    let mut state = '?';
+                    let mut ppid = -1;
+                    for _ in 0..120 {
+                        if let Ok(txt) = std::fs::read_to_string(format!("/proc/{}/stat", b)) {
+                            if let Some(rest) = txt.rsplit(')').next() {
+                                let mut it = rest.split_whitespace();
+                                state = it.next().and_then(|x| x.chars().next()).unwrap_or('?');
+                                ppid = it.next().and_then(|x| x.parse().ok()).unwrap_or(-1);
+                            }
+                        }
+                        if state == 'T' {
+                            break;
+                        }
+                        std::thread::sleep(std::time::Duration::from_millis(10));
+                    }
+                    report(&format!("stopped={};ppid={};", (state == 'T') as u8, ppid));
+                    unsafe {
+                        libc::kill(b, libc::SIGKILL);
+                        libc::kill(b, libc::SIGCONT);
+                    }
+                    0
+                });
+                println!(
+                    "{}",
+                    Obj::new("reparented").int("sig", sig as i64).boolean("native", native).str("status", &st.text).raw("r", &kv_json(&st.report)).done()
+                );
+            }
+        }
         // emulation on a thread other than the main one (the usual signal-loop-thread set-up)
         if (1..=64).contains(&sig) && sig != 32 && sig != 33 {
             let st = fork_run(3000, || {
@@ -386,8 +454,21 @@ fn probe_flags(args: &Args) {
                     .chain(ign_sigs.iter().filter(|_| with_default).map(|s| (*s, "ign")))
                     .collect();
                 for (sig, kind) in &all_sigs {
+                  // once in a single-threaded child and, for the first status, once more in a
+                  // child that has other (idle) threads: termination must take the whole process
+                  for mt in [false, true] {
+                    if mt && si > 0 {
+                        continue;
+                    }
                     let (sig, status, kind) = (*sig, *status, *kind);
                     let st = fork_run(5000, || {
+                        if mt {
+                            for _ in 0..2 {
+                                std::thread::spawn(|| loop {
+                                    std::thread::sleep(std::time::Duration::from_secs(3600));
+                                });
+                            }
+                        }
                         let term = Arc::new(AtomicBool::new(false));
                         let usz = Arc::new(AtomicUsize::new(0));
                         let reg_shutdown = |t: &Arc<AtomicBool>| {
@@ -456,10 +537,12 @@ fn probe_flags(args: &Args) {
                             .int("exit", status as i64)
                             .int("sig", sig as i64)
                             .str("kind", kind)
+                            .boolean("mt", mt)
                             .str("status", &st.text)
                             .raw("r", &kv_json(&st.report))
                             .done()
                     );
+                  }
                 }
             }
         }
@@ -481,7 +564,7 @@ fn probe_reject(args: &Args) {
     let entries = [
         "registry_register", "registry_register_sigaction", "low_level_register", "flag_register",
         "flag_register_usize", "flag_conditional_shutdown", "flag_conditional_default",
-        "pipe_register", "pipe_register_raw", "signals_new", "signals_new_after_valid", "add_signal",
+        "pipe_register", "pipe_register_raw", "pipe_register_raw_pipe", "pipe_register_file", "signals_new", "signals_new_after_valid", "add_signal",
         "registry_register_signal_unchecked", "registry_register_unchecked",
     ];
     let nums: Vec<c_int> = if args.flag("wide") {
@@ -607,6 +690,21 @@ fn probe_reject(args: &Args) {
                                 fd_closes0 = closes_of(raw);
                                 std::mem::forget(_r);
                                 signal_hook::low_level::pipe::register_raw(n, raw).map(|_| ())
+                            }
+                            // the same entry points with descriptors that are not sockets
+                            "pipe_register_raw_pipe" => {
+                                drop(probe);
+                                let (_r, w) = make_pair("pipe");
+                                fd_to_check = w;
+                                fd_closes0 = closes_of(w);
+                                signal_hook::low_level::pipe::register_raw(n, w).map(|_| ())
+                            }
+                            "pipe_register_file" => {
+                                drop(probe);
+                                let f = std::fs::OpenOptions::new().write(true).open("/dev/null")?;
+                                fd_to_check = f.as_raw_fd();
+                                fd_closes0 = closes_of(fd_to_check);
+                                signal_hook::low_level::pipe::register(n, f).map(|_| ())
                             }
                             "signals_new" => {
                                 drop(probe);
@@ -846,6 +944,19 @@ fn probe_pipe(args: &Args) {
                         unsafe { libc::open(b"/dev/null\0".as_ptr() as *const libc::c_char, libc::O_RDONLY) };
                     }
                     let (r, w) = make_pair(kind);
+                    // one configuration in three hands over descriptor number 0 (a daemon that
+                    // closed its standard streams gets it from the next pipe())
+                    let w = if shift == 2 {
+                        unsafe {
+                            libc::close(0);
+                            let z = libc::dup2(w, 0);
+                            libc::close(w);
+                            z
+                        }
+                    } else {
+                        w
+                    };
+                    let closes_start = closes_of(w);
                     let pre = match fill {
                         "full" => fill_to_full(w),
                         "partly" => {
@@ -898,10 +1009,10 @@ fn probe_pipe(args: &Args) {
                     };
                     report(&format!("pre={};got={};", pre, got));
                     // removal closes the descriptor exactly once and nothing is written afterwards
-                    let c0 = closes_of(w);
+                    let c0 = closes_of(w) - closes_start;
                     let removed = signal_hook::low_level::unregister(id);
                     let closed = unsafe { libc::fcntl(w, libc::F_GETFD) } == -1;
-                    report(&format!("closes_before={};closes={};", c0, closes_of(w)));
+                    report(&format!("closes_before={};closes={};", c0, closes_of(w) - closes_start));
                     // descriptor-number reuse probe
                     let (r2, w2) = make_pair("pipe_nonblock");
                     unsafe { libc::raise(libc::SIGUSR1) };
@@ -1021,6 +1132,8 @@ fn probe_pipe(args: &Args) {
         grid.push(("os_rejected", 65, fdkind));
         grid.push(("os_rejected", 0, fdkind));
     }
+    grid.push(("forbidden", libc::SIGKILL, "pipe_fd0"));
+    grid.push(("os_rejected", 65, "pipe_fd0"));
     grid.push(("unsettable", libc::SIGUSR1, "opath"));
     grid.push(("invalid_fd", libc::SIGUSR1, "closed"));
     grid.push(("invalid_fd", libc::SIGUSR1, "minus_one"));
@@ -1028,6 +1141,13 @@ fn probe_pipe(args: &Args) {
         let st = fork_run(5000, || {
             let fd = match fdkind {
                 "stream" | "dgram" | "pipe" => make_pair(fdkind).1,
+                "pipe_fd0" => unsafe {
+                    let w = make_pair("pipe").1;
+                    libc::close(0);
+                    let z = libc::dup2(w, 0);
+                    libc::close(w);
+                    z
+                },
                 "file" => unsafe { libc::open(b"/dev/null\0".as_ptr() as *const libc::c_char, libc::O_WRONLY) },
                 "opath" => unsafe { libc::open(b"/dev/null\0".as_ptr() as *const libc::c_char, libc::O_PATH) },
                 "closed" => {
